@@ -123,6 +123,24 @@ func (s *Sim) opConnect(op *Op) {
 		sess = &Session{ID: sl.ClientID, Subs: map[string]*MSub{}, InQ2: map[uint16]*Msg{}, Taint: map[string]bool{}}
 		if old != nil {
 			old.Abandoned = true
+			// store records are keyed by client id: what the recorded deferred-release defect left behind for the old
+			// session is still there for the new one
+			sess.StaleDeferred = map[string]bool{}
+			for k := range old.StaleDeferred {
+				sess.StaleDeferred[k] = true
+			}
+			old.noteStale()
+			for k := range old.StaleDeferred {
+				sess.StaleDeferred[k] = true
+			}
+			if old.Taint["deferred"] || old.LeakyBefore {
+				// the quota leak of the recorded findings was at work under this client id: any message once in flight
+				// for it may have lost its in-memory record while its store record stays
+				sess.LeakyBefore = true
+				for k := range old.EverOwed {
+					sess.StaleDeferred[k] = true
+				}
+			}
 		}
 		m.Sessions[sl.ClientID] = sess
 	}
@@ -668,6 +686,7 @@ func (s *Sim) oweVars(t *Session, msg *Msg, vars []variant, retain []bool, retai
 			m.count("queued_for_offline_beyond_receive_maximum")
 		}
 		t.Out = append(t.Out, o)
+		t.noteOwed(msg.ID)
 		m.count("queued_for_offline")
 		return nil
 	}
@@ -676,6 +695,7 @@ func (s *Sim) oweVars(t *Session, msg *Msg, vars []variant, retain []bool, retai
 	e := &Expect{Kind: rc.PUBLISH, Msg: msg, Out: o, Vars: vars, Retain: retain, Dup: 0, Rule: rule, Attrs: attrs, What: fmt.Sprintf("delivery of %s on %s (from %s)", msg.ID, msg.Topic, msg.From), Step: m.Step, SP: -1}
 	if q > 0 {
 		t.Out = append(t.Out, o)
+		t.noteOwed(msg.ID)
 		// flow control: messages beyond the client's Receive Maximum are held back
 		if sl.RecvMax > 0 {
 			busy := 0
@@ -784,6 +804,7 @@ func (s *Sim) connectionEndedModel(sl *Slot, why string, resumedByTakeover bool)
 	if ends && !resumedByTakeover {
 		sess.Abandoned = true
 		sess.Subs = map[string]*MSub{}
+		sess.noteStale()
 		sess.Out = nil
 		m.count("sessions_ended_at_disconnect")
 	}
